@@ -200,7 +200,7 @@ def fingerprint(B, rename=None):
     return json.dumps([[clean(B.blocks[i]['s']), clean(B.blocks[i]['t'])] for i in live], sort_keys=True)
 
 
-def op_bag(B, rename=None):
+def op_bag(B, rename=None, blocks=None):
     """Order- and shape-independent summary of a body: the multiset of operations it performs (callees, binary/unary
     operators with their constant operands, casts, aggregate kinds, constants switched on).  Two bodies with the same
     bag perform the same operations on renamed locals in some control structure; statement order, temporaries and
@@ -217,6 +217,8 @@ def op_bag(B, rename=None):
         return x
     bag = Counter()
     for i in sorted(B.live_blocks()):
+        if blocks is not None and i not in blocks:
+            continue
         blk = B.blocks[i]
         for st in blk['s']:
             if st['k'] != '=':
